@@ -1,0 +1,25 @@
+//go:build verif
+
+package util
+
+import "sync/atomic"
+
+// With the "verif" build tag every vpoint(label) call reports to the hook
+// installed by the verification harness (which may log the point or stall the
+// calling goroutine there). No hook installed means no effect.
+
+var verifHook atomic.Value // of func(string)
+
+// SetVerifHook installs (or with nil removes) the schedule-point hook.
+func SetVerifHook(f func(label string)) {
+	if f == nil {
+		f = func(string) {}
+	}
+	verifHook.Store(f)
+}
+
+func vpoint(label string) {
+	if f, ok := verifHook.Load().(func(string)); ok {
+		f(label)
+	}
+}
